@@ -15,7 +15,8 @@ ID = "C16"
 LEVEL = "exploration"
 ANCHORS = ["itertools.py"]
 RULE = ("lock-step differential against itertools.groupby: the same operation sequence over {advance the groupby, "
-        "advance group handle i (any previously returned group: live, stale, exhausted)} is applied to both; after "
+        "advance group handle i (any previously returned group: live, stale, exhausted), close group handle i (the twin "
+        "stops using that group)} is applied to both; after "
         "every operation the key returned, the group item (identity via uid) or the end signal, and the key-function "
         "call log must agree. All operation sequences of length <= 6 (quick: <= 5) over {adv, g-1 (latest), g-2, g0} "
         "for inputs of length <= 5 drawn from a fixed input set are enumerated; seeded random inputs of length 0..10 "
@@ -28,7 +29,7 @@ EXHAUSTIVE = {"quick": False, "thorough": False}
 N_RANDOM = {"quick": 100000, "thorough": 6000000}
 ENUM_INPUTS = [[], [0], [0, 0], [0, 1], [0, 0, 1], [0, 1, 1], [0, 1, 0], [0, 0, 1, 1], [0, 1, 1, 0], [0, 0, 0, 1, 1],
                [0, 1, 0, 1, 0], [1, 1, 0, 0, 1]]
-OPS = ["adv", "g-1", "g-2", "g0"]
+OPS = ["adv", "g-1", "g-2", "g0", "c-1"]
 
 
 def cases(tier, seed, shard, nshards):
@@ -49,7 +50,8 @@ def cases(tier, seed, shard, nshards):
         ops = []
         for _ in range(rng.randint(1, 15)):
             r = rng.random()
-            ops.append("adv" if r < 0.35 else "g-1" if r < 0.75 else rng.choice(["g-2", "g0", "g-3"]))
+            ops.append("adv" if r < 0.35 else "g-1" if r < 0.72 else rng.choice(["g-2", "g0", "g-3"]) if r < 0.9
+                       else rng.choice(["c-1", "c-1", "c-2", "c0"]))
         yield {"keys": keys, "key": rng.choice([None, "half", "ahalf", "aident", "noneodd", "anoneodd", "tuple"]), "ops": ops,
                "flav": rng.choice(["list", "async_gen", "async_class", "sync_iter"]), "susp": rng.choice([0, 0, 1])}
 
@@ -95,6 +97,7 @@ def gb_side(case, sync, fault=None, fnfl=None, cont=False):
         src = SyncSrc(st)
         gs = itertools.groupby(src, make_fn(fs, "def")) if fs is not None else itertools.groupby(src)
         groups = []
+        abandoned = set()
         for n, op in enumerate(case["ops"]):
             CTX.ev("op", n)
             try:
@@ -109,6 +112,14 @@ def gb_side(case, sync, fault=None, fnfl=None, cont=False):
                     i = int(op[1:])
                     if not groups or (i < 0 and -i > len(groups)) or (i >= 0 and i >= len(groups)):
                         results.append(("nogroup",))
+                        continue
+                    if op[0] == "c":
+                        # closing a group handle (what any tool does with its input): the twin simply stops using it
+                        abandoned.add(i % len(groups))
+                        results.append(("closed",))
+                        continue
+                    if i % len(groups) in abandoned:
+                        results.append(("gend",))
                         continue
                     try:
                         results.append(("item", canon(next(groups[i]))))
@@ -141,6 +152,10 @@ def gb_side(case, sync, fault=None, fnfl=None, cont=False):
                         if not agroups or (i < 0 and -i > len(agroups)) or (i >= 0 and i >= len(agroups)):
                             results.append(("nogroup",))
                             continue
+                        if op[0] == "c":
+                            await agroups[i].aclose()
+                            results.append(("closed",))
+                            continue
                         try:
                             results.append(("item", canon(await agroups[i].__anext__())))
                         except StopAsyncIteration:
@@ -170,7 +185,7 @@ def run_case(case, stats: Counter, compare_log=True):
     for op, r in zip(case["ops"], ref):
         if op == "adv" and r[0] == "key":
             ng += 1
-        elif op != "adv" and r[0] != "nogroup":
+        elif op != "adv" and r[0] not in ("nogroup", "closed"):
             i = int(op[1:])
             if (i < 0 and -i != 1) or (i >= 0 and i != ng - 1):
                 stale = True
